@@ -77,7 +77,21 @@ def grid(x):
 
 
 def shape_of(c):
+    if 'proc' in c:
+        return tuple(c['proc']['shape'])
     return len(c['img']), len(c['img'][0])
+
+
+def get_img(c):
+    """the samples of the case's image as float64: listed in the case, or (large frames) described procedurally as a
+    flat background plus point sources"""
+    if 'proc' in c:
+        pr = c['proc']
+        a = np.full(tuple(pr['shape']), float(Fraction(pr['bg'])))
+        for r, q, v in pr['src']:
+            a[r, q] += float(Fraction(v))
+        return a
+    return np.array(c['img'], dtype=float)
 
 
 # ------------------------------------------------------------------ generation
@@ -109,6 +123,20 @@ UNITS = [('1', '1'), ('1', '2'), ('1', '3'), ('1/200000', '1'), ('1/200000', '5'
 
 
 DTYPES = ['int64', 'uint8', 'float32', 'bool', 'list']
+# ndarray subclasses / containers (legal array_like inputs: the blur acts on their samples), memory layouts,
+# scalar forms of the parameters, power-of-two scalings of the image (every step of the blur is linear, and a power
+# of two scales every float exactly: blur(s*img)/s must reproduce blur(img))
+CONTAINERS = ['masked', 'masked_nomask', 'matrix', 'subclass', 'memmap']
+LAYOUTS = ['F', 'strided', 'negstride', 'readonly', 'offset']
+ARGFORMS = ['np0d', 'npscalar']
+SCALES2 = [-60, -43, -30, 20, 40]
+# near-ties: parameters within 1e-6 relative of a special value, but not equal to it
+NEAR_UNITS = [('1000001/1000000', '1'), ('999999/1000000', '2'), ('1', '1000001/1000000'), ('1', '2000001/1000000')]
+NEAR_ANGLES = ['1/1000000', '89999999/1000000', '180000001/1000000', '359999999/1000000']
+NEAR_EXTENTS = ['1/1000', '1000001/1000000', '2999999/1000000']
+NEAR_OS = ['1000001/1000000', '1999999/1000000', '1/1000']
+# frames at and around 2**20 samples / 1000 rows (thresholds of "large frame" code paths), not divisible by round blocks
+BIG_SHAPES = [(1024, 1100), (1000, 1049), (1024, 1024), (1030, 1018), (4100, 257), (1023, 1025)]
 # side lengths that are not 2-3-5-7-11-smooth ("slow" FFT lengths): cheap enough for the model ...
 PRIME_MODEL = [(1, 13), (13, 1), (2, 13), (13, 2), (1, 17), (17, 1), (1, 19), (19, 1), (1, 23), (23, 1), (3, 13), (2, 17)]
 # ... and oracle-only (roll commutation, circular convolution, totals, identity; no model run)
@@ -152,6 +180,69 @@ def mk_case(rng, op, m, n, tier, allshifts_max, kind=None, variants=True):
         c['dtype'] = dt
     if variants and rng.random() < 0.3:
         c['intargs'] = True
+    if variants and 'intargs' not in c and rng.random() < 0.15:
+        c['argform'] = rng.choice(ARGFORMS)
+    if variants and rng.random() < 0.2:
+        c['container'] = rng.choice(CONTAINERS)
+    if variants and c.get('dtype') != 'list' and rng.random() < 0.2:
+        c['layout'] = rng.choice(LAYOUTS)
+    if variants and c.get('dtype', 'float64') in ('float64', 'float32') and rng.random() < 0.2:
+        c['scale2'] = rng.choice(SCALES2)
+    return c
+
+
+def mk_near(rng, op, m, n):
+    """a parameter next to, but not at, a special value (0, 1, an integer, a multiple of 90 degrees)"""
+    c = mk_case(rng, op, m, n, 'quick', 0, kind=rng.choice(['background', 'dense']), variants=False)
+    if op == 'pixel':
+        c['os'] = rng.choice(NEAR_OS)
+    else:
+        t = rng.randrange(3 if op == 'smear' else 2)
+        if t == 0:
+            ps, os_ = rng.choice(NEAR_UNITS)
+            e = rng.choice(['1', '3/2', '2'])
+            c['ext'], c['ps'], c['os'] = str(Fraction(e) * Fraction(ps) / Fraction(os_)), ps, os_
+        elif t == 1:
+            c['ext'], c['ps'], c['os'] = rng.choice(NEAR_EXTENTS), '1', '1'
+        else:
+            c['angle'] = rng.choice(NEAR_ANGLES)
+    c['kind'] = 'near-tie'
+    return c
+
+
+def mk_variant(rng, op, m, n, what):
+    """one variant dimension on an otherwise plain case"""
+    c = mk_case(rng, op, m, n, 'quick', 0, kind=rng.choice(['background', 'dense', 'sparse']), variants=False)
+    if Fraction(c['os'] if op == 'pixel' else c['ext']) == 0:
+        c.update(mk_case(rng, op, m, n, 'quick', 0, kind='corner', variants=False))
+        c['kind'] = 'background'
+    if what in CONTAINERS:
+        c['container'] = what
+    elif what in LAYOUTS:
+        c['layout'] = what
+    elif what in ARGFORMS:
+        c['argform'] = what
+    else:
+        c['scale2'] = what
+    return c
+
+
+def mk_big(rng, op, shape):
+    """a frame of about 2**20 samples: flat background and a few point sources (one next to a corner), compact kernel;
+    decided by the oracle alone, against the transform pair written as explicit DFT matrices"""
+    m, n = shape
+    src = [[rng.randrange(m), rng.randrange(n), str(rng.choice([300, 1200, 5000]))] for _ in range(2)]
+    src.append([rng.choice([0, 1, m - 1]), rng.choice([0, n - 2, n - 1]), '2500'])
+    c = {'op': op, 'proc': {'shape': [m, n], 'bg': rng.choice(['1/4', '2', '10']), 'src': src}, 'kind': 'big',
+         'nomodel': True, 'shifts': [[rng.randint(1, m - 1), rng.randint(1, n - 1)]]}
+    if op == 'pixel':
+        c['os'] = rng.choice(['1', '2', '3'])
+    else:
+        ps, os_ = rng.choice(UNITS)
+        e = rng.choice(['1/2', '5/4', '5/2', '4'])
+        c['ext'], c['ps'], c['os'] = str(Fraction(e) * Fraction(ps) / Fraction(os_)), ps, os_
+        if op == 'smear':
+            c['angle'] = rng.choice(['30', '0', '-60', '135'])
     return c
 
 
@@ -229,9 +320,18 @@ def generate(rng, tier):
                 out.append(dict(mk_case(rng, op, m, n, tier, 0, kind='corner', variants=False), nomodel=True))
         for _ in range(12):
             out.append(mk_history(rng, *rng.choice(HIST_SHAPES)))
+        small = [(3, 5), (5, 4), (4, 7), (6, 3), (2, 9), (5, 5), (1, 1), (1, 4)]
+        for what in CONTAINERS + LAYOUTS + ARGFORMS + rng.sample(SCALES2, 3):
+            for op in rng.sample(ops, 2):
+                out.append(mk_variant(rng, op, *rng.choice(small), what))
+        for op in ops:
+            out.append(mk_variant(rng, op, *rng.choice(small), 'masked'))
+            for _ in range(2):
+                out.append(mk_near(rng, op, *rng.choice(small[:6])))
+        out.append(mk_big(rng, 'jitter', rng.choice(BIG_SHAPES[:2])))
     else:
         shapes = [s for s in SHAPES_ALL if cost(*s) <= 60000]
-        ncase, allshifts = 1000, 25
+        ncase, allshifts = 1200, 25
         # every shape 2..12 x 2..12 once per blur
         for (m, n) in SHAPES_ALL:
             for op in ops:
@@ -244,6 +344,19 @@ def generate(rng, tier):
                     out.append(dict(mk_case(rng, op, m, n, tier, 0, kind='corner', variants=False), nomodel=True))
         for _ in range(80):
             out.append(mk_history(rng, *rng.choice(HIST_SHAPES)))
+        small = [(3, 5), (5, 4), (4, 7), (6, 3), (2, 9), (5, 5), (1, 1), (1, 4), (7, 8), (13, 2)]
+        for what in CONTAINERS + LAYOUTS + ARGFORMS + SCALES2:
+            for op in ops:
+                for _ in range(3):
+                    out.append(mk_variant(rng, op, *rng.choice(small), what))
+        for op in ops:
+            for _ in range(15):
+                out.append(mk_near(rng, op, *rng.choice(small)))
+        for shape in BIG_SHAPES:
+            out.append(mk_big(rng, 'jitter', shape))
+        for shape in BIG_SHAPES[:3]:
+            out.append(mk_big(rng, 'pixel', shape))
+            out.append(mk_big(rng, 'smear', shape))
     while len(out) < ncase:
         m, n = rng.choice(shapes)
         out.append(mk_case(rng, rng.choice(ops), m, n, tier, allshifts))
@@ -265,10 +378,17 @@ def classify(c):
         tag += '/' + c['dtype']
     if c.get('intargs'):
         tag += '/int-args'
+    for k in ('argform', 'container', 'layout'):
+        if c.get(k):
+            tag += '/' + c[k]
+    if c.get('scale2'):
+        tag += '/scaled'
     return tag
 
 
 def nontrivial(c):
+    if 'proc' in c:
+        return True
     flat = [v for r in c['img'] for v in r]
     if c['op'] == 'history':
         return len(set(flat)) > 1
@@ -281,14 +401,19 @@ def params(c):
     """floats handed to lentil, and their exact rational values handed to the model"""
     def num(s):
         f = Fraction(s)
-        return int(f) if (c.get('intargs') and f.denominator == 1) else float(f)    # same value, int or float
+        v = int(f) if (c.get('intargs') and f.denominator == 1) else float(f)    # same value, int or float
+        if c.get('argform') == 'np0d':
+            return np.array(v)                   # 0-d array
+        if c.get('argform') == 'npscalar':
+            return np.float64(v)
+        return v
     p = {'os': num(c['os'])}
     if c['op'] != 'pixel':
         p['ext'] = num(c['ext'])
         p['ps'] = num(c['ps'])
     if c['op'] == 'smear':
         p['angle'] = num(c['angle'])
-        a = np.radians(p['angle'])
+        a = np.radians(float(p['angle']))
         p['sn'] = float(np.sin(a))
         p['cs'] = float(np.cos(a))
     return p
@@ -400,7 +525,7 @@ def decode(c, ints):
     absd = np.abs(pre)                      # np.abs: applied here, between the two model stages
     if c['op'] == 'pixel':
         return {'out': absd.tolist()}
-    return {'out': model_renorm(absd, np.asarray(c['img'], dtype=float))}
+    return {'out': model_renorm(absd, get_img(c))}
 
 
 # ------------------------------------------------------------------ implementation side
@@ -422,19 +547,111 @@ def fresh_lentil():
     return C.import_lentil()
 
 
+class Frame(np.ndarray):
+    """an ndarray subclass that carries metadata"""
+    def __new__(cls, a, meta=None):
+        obj = np.asarray(a).view(cls)
+        obj.meta = meta
+        return obj
+
+    def __array_finalize__(self, obj):
+        self.meta = getattr(obj, 'meta', None)
+
+
+class Arr(list):
+    """a large result: behaves as its array for numpy, is summarised when a replay is written"""
+    def __init__(self, a):
+        a = np.asarray(a)
+        list.__init__(self, [f'<array {a.shape}>', float(np.min(a)), float(np.max(a)), float(np.sum(a))])
+        self.a = a
+
+    def __array__(self, dtype=None, copy=None):
+        return self.a if dtype is None else self.a.astype(dtype)
+
+
+def mask_of(a):
+    """the flags of the 'masked' container: a fixed pattern plus the brightest sample (so that a masked sample is
+    non-zero); never everything"""
+    m, n = a.shape
+    i, j = np.indices((m, n))
+    mk = ((3 * i + 5 * j) % 4 == 0)
+    mk[np.unravel_index(int(np.argmax(a)), a.shape)] = True
+    if mk.all():
+        mk[-1, -1] = False
+    return mk
+
+
 def mk_img(c, arr=None):
-    """the image in the form the case asks for: float64 (default), another dtype, or a nested list"""
-    a = np.array(c['img'], dtype=float) if arr is None else arr
+    """the image in the form the case asks for: float64 (default) or another dtype, scaled by a power of two, in a
+    memory layout, inside a container (ndarray subclass) or as a nested list"""
+    a = get_img(c) if arr is None else arr
+    if c.get('scale2'):
+        a = a * 2.0 ** c['scale2']
     dt = c.get('dtype', 'float64')
     if dt == 'list':
         return [[float(v) for v in row] for row in a.tolist()]
-    return a.astype({'float64': np.float64, 'float32': np.float32, 'int64': np.int64, 'uint8': np.uint8,
-                     'bool': np.bool_}[dt])
+    a = a.astype({'float64': np.float64, 'float32': np.float32, 'int64': np.int64, 'uint8': np.uint8,
+                  'bool': np.bool_}[dt])
+    m, n = a.shape
+    lay = c.get('layout')
+    if lay == 'F':
+        a = np.asfortranarray(a)
+    elif lay == 'strided':
+        buf = np.zeros((2 * m, 3 * n), dtype=a.dtype)
+        buf[::2, ::3] = a
+        a = buf[::2, ::3]
+    elif lay == 'negstride':
+        a = a[::-1, ::-1].copy()[::-1, ::-1]
+    elif lay == 'offset':
+        buf = np.zeros((m + 2, n + 3), dtype=a.dtype)
+        buf[1:-1, 2:-1] = a
+        a = buf[1:-1, 2:-1]
+    elif lay == 'readonly':
+        a = a.copy()
+        a.setflags(write=False)
+    con = c.get('container')
+    if con == 'masked':
+        a = np.ma.MaskedArray(a, mask=mask_of(np.asarray(a, dtype=float)))
+    elif con == 'masked_nomask':
+        a = np.ma.MaskedArray(a)
+    elif con == 'matrix':
+        a = np.matrix(a)
+    elif con == 'subclass':
+        a = Frame(a, meta={'exposure': 3})
+    elif con == 'memmap':
+        import tempfile
+        f = tempfile.TemporaryFile()
+        mm = np.memmap(f, dtype=a.dtype, mode='w+', shape=a.shape)
+        mm[...] = a
+        a = mm
+    return a
 
 
-def as_result(out):
+def snapshot(x):
+    """the caller's memory behind an argument: the samples (the whole underlying buffer for views) and the flags"""
+    if isinstance(x, list):
+        return None
+    if isinstance(x, np.ma.MaskedArray):
+        return [np.array(x.data, copy=True), np.array(np.ma.getmaskarray(x), copy=True)]
+    base = x
+    while isinstance(getattr(base, 'base', None), np.ndarray):
+        base = base.base
+    return [np.array(np.asarray(base), copy=True)]
+
+
+def untouched(x, snap):
+    if snap is None:
+        return True
+    now = snapshot(x)
+    return all(a.shape == b.shape and a.tobytes() == b.tobytes() for a, b in zip(snap, now))
+
+
+def as_result(out, c=None):
     o = np.asarray(out)
-    return {'out': o.tolist(), 'dtype_kind': o.dtype.kind}
+    kind = o.dtype.kind
+    if c is not None and c.get('scale2') and kind in 'fc':
+        o = o / 2.0 ** c['scale2']             # exact: the result for the unscaled image
+    return {'out': Arr(o) if o.size > 100000 else o.tolist(), 'dtype_kind': kind}
 
 
 def run_history(c):
@@ -444,14 +661,14 @@ def run_history(c):
     seq = []
     for k in calls:
         try:
-            seq.append(as_result(call(lentil, k, img, params(k))))
+            seq.append(as_result(call(lentil, k, img, params(k)), c))
         except Exception as e:
             seq.append({'err': type(e).__name__})
     alone = []
     for k in calls:                      # the same call made first in a fresh state
         lentil = fresh_lentil()
         try:
-            alone.append(as_result(call(lentil, k, mk_img(c), params(k))))
+            alone.append(as_result(call(lentil, k, mk_img(c), params(k)), c))
         except Exception as e:
             alone.append({'err': type(e).__name__})
     return {'seq': seq, 'alone': alone}
@@ -461,49 +678,43 @@ def run_impl(c):
     if c['op'] == 'history':
         return run_history(c)
     lentil = fresh_lentil()
-    img = np.array(c['img'], dtype=float)
+    img = get_img(c)
     p = params(c)
     res = {}
+
+    def one(image, pp):
+        try:
+            return as_result(call(lentil, c, image, pp), c)['out']
+        except Exception as e:
+            return {'err': type(e).__name__}
     try:
-        res.update(as_result(call(lentil, c, mk_img(c), p)))
+        arg = mk_img(c)
+        snap = snapshot(arg)
+        res.update(as_result(call(lentil, c, arg, p), c))
+        res['input_untouched'] = untouched(arg, snap)
     except Exception as e:
         return {'err': type(e).__name__}
     # circular translations of the input
-    rolled = []
-    for s in c.get('shifts', []):
-        try:
-            rolled.append(np.asarray(call(lentil, c, mk_img(c, np.roll(img, tuple(s), axis=(0, 1))), p)).tolist())
-        except Exception as e:
-            rolled.append({'err': type(e).__name__})
-    res['rolled'] = rolled
+    res['rolled'] = [one(mk_img(c, np.roll(img, tuple(s), axis=(0, 1))), p) for s in c.get('shifts', [])]
     # the same call again after the others: a fixed convolution does not depend on the calls made before
-    try:
-        res['again'] = np.asarray(call(lentil, c, mk_img(c), p)).tolist()
-    except Exception as e:
-        res['again'] = {'err': type(e).__name__}
+    res['again'] = one(mk_img(c), p)
     # zero extent
     p0 = dict(p)
     if c['op'] == 'pixel':
         p0['os'] = 0.0
     else:
         p0['ext'] = 0.0
-    try:
-        res['zero'] = np.asarray(call(lentil, c, mk_img(c), p0)).tolist()
-    except Exception as e:
-        res['zero'] = {'err': type(e).__name__}
+    res['zero'] = one(mk_img(c), p0)
     # the same extent expressed in samples
     if c['op'] != 'pixel':
         ps_ = dict(p)
         ps_['ext'] = float(Fraction(c['ext']) / Fraction(c['ps']) * Fraction(c['os']))
         ps_['ps'] = 1
         ps_['os'] = 1
-        try:
-            res['samples'] = np.asarray(call(lentil, c, mk_img(c), ps_)).tolist()
-        except Exception as e:
-            res['samples'] = {'err': type(e).__name__}
+        res['samples'] = one(mk_img(c), ps_)
     else:
         o = Fraction(c['os'])
-        if o.denominator == 1 and o >= 1:
+        if o.denominator == 1 and o >= 1 and 'proc' not in c and not c.get('scale2'):
             try:
                 a = lentil.detector.pixelate(mk_img(c), int(o))
                 b = lentil.rescale(lentil.detector.pixel(mk_img(c), int(o)), 1 / int(o), order=3, mode='nearest', unitary=True)
@@ -574,7 +785,7 @@ def circ_conv(img, h):
 def check_out(c, impl):
     """the clauses that concern one call: shape, real non-negative values, total (jitter / smear), equality with the
     circular convolution with the documented transfer function where that convolution is non-negative"""
-    img = np.array(c['img'], dtype=float)
+    img = get_img(c)
     m, n = img.shape
     if 'err' in impl:
         return f'{c["op"]} raised {impl["err"]} on a {m}x{n} image'
@@ -597,8 +808,11 @@ def check_out(c, impl):
         return 'oracle transfer function has no unit gain (harness bug)'
     Wm, Wn = dft_matrix(m, +1), dft_matrix(n, +1)
     h = (Wm @ T.astype(complex) @ Wn) / (m * n)                 # inverse DFT of T, by matrices
-    cc = circ_conv(img, h)
     F = dft_matrix(m, -1) @ img.astype(complex) @ dft_matrix(n, -1)
+    if m * n <= 2048:
+        cc = circ_conv(img, h)               # brute-force circular convolution
+    else:
+        cc = (Wm @ (F * T) @ Wn) / (m * n)   # large frames: the same sum, grouped by frequency
     nyq = 0.0
     if m % 2 == 0:
         nyq += float(np.sum(np.abs(F[m // 2, :] * T[m // 2, :])))
@@ -639,11 +853,13 @@ def oracle_history(c, impl):
 def oracle(c, impl):
     if c['op'] == 'history':
         return oracle_history(c, impl)
-    img = np.array(c['img'], dtype=float)
+    img = get_img(c)
     m, n = img.shape
     msg = check_out(c, impl)
     if msg:
         return msg
+    if impl.get('input_untouched') is False:
+        return 'the image passed by the caller was modified by the call'
     out = np.asarray(impl['out'], dtype=float)
     # commutation with circular translation
     for s, r in zip(c.get('shifts', []), impl.get('rolled', [])):
